@@ -1664,6 +1664,50 @@ def r10_flag_writers_and_pairing(facts):
                     "every branch that produces the saved flags stops tracking of the operands",
                     "one branch of the saved-flags initialiser (`%s`) does not stop tracking: on that path the operands stay tracked while the derivative closure runs, "
                     "so the adjoints it computes from them are tracked arrays with a recorded graph" % (show(missing[0])[:60] if missing else ""))
+    # ... and what is saved for an operand IS the flag stop_tracking returned for it (its state before the derivative call), nothing computed
+    # from other state (a counter, the keep flag): the restore and the derivative's mask both read this vector
+    def stop_call(e):
+        e0 = peel(e)
+        return isinstance(e0, dict) and e0.get("k") == "Call" and (resolved(e0) == STOP or callee(e0) == STOP)
+    elem_exprs = []
+    if sb is not None and sb[0] == "let" and isinstance(sb[1], dict):
+        for x in walk(sb[1]):
+            if x.get("k") == "Call" and callee(x) == IT + "map" and len(x["args"]) == 2 and strip(x["args"][1]).get("k") == "Closure":
+                cb_ = vf.body(strip(x["args"][1])["closure"])
+                if cb_ is not None and calls_in(vf.root(cb_), STOP):
+                    r_ = strip(vf.root(cb_))
+                    lets_ = {}
+                    while isinstance(r_, dict) and r_.get("k") == "Block":
+                        for st in r_["stmts"]:
+                            if st["s"] == "let" and st["pat"].get("k") == "Binding" and st.get("init") is not None:
+                                lets_[st["pat"]["v"]] = st["init"]
+                        if r_.get("e") is None:
+                            r_ = None
+                            break
+                        r_ = strip(r_["e"])
+                    if isinstance(r_, dict) and r_.get("k") == "VarRef" and r_["v"] in lets_:
+                        r_ = lets_[r_["v"]]
+                    if r_ is not None:
+                        elem_exprs.append(r_)
+    for n, ctx in walk_ctx(m.root):
+        if n.get("k") == "Call" and callee(n) == "alloc::vec::Vec::<T, A>::push" and var_of(n["args"][0]) == saved:
+            a_ = n["args"][1]
+            if peel(a_).get("k") == "VarRef" and m.binds.get(peel(a_)["v"]) and m.binds[peel(a_)["v"]][0] == "let" and m.binds[peel(a_)["v"]][1] is not None:
+                a_ = m.binds[peel(a_)["v"]][1]
+            elem_exprs.append(a_)
+    def other_state(e_):
+        return any(x.get("k") == "Field" and x.get("adt") == ARRAY and x.get("name") not in ("is_tracked",) for x in walk(e_)) or \
+            any(x.get("k") == "Call" and (resolved(x) or "").startswith(ARRAY + "::") and resolved(x) != STOP for x in walk(e_))
+    wrong = [e_ for e_ in elem_exprs if not stop_call(e_) and other_state(e_)]
+    unread_ = [e_ for e_ in elem_exprs if not stop_call(e_) and not other_state(e_)
+               and not any(x.get("k") == "Field" and x.get("adt") == ARRAY and x.get("name") == "is_tracked" for x in walk(e_))]
+    if unread_ and not wrong:
+        c.unk("pairing:saved-flag-source", loc(bw, unread_[0]), "what is saved for an operand (`%s`) is neither stop_tracking's return value nor a read of its tracking flag" % show(unread_[0])[:60])
+    elif wrong:
+        c.bad("pairing:saved-flag-source", loc(bw, wrong[0]), "the flag saved for an operand is `%s`, not the value stop_tracking returned for it: the mask handed to the derivative and the "
+              "restore afterwards no longer say whether THAT operand was tracked when the pass reached it" % show(wrong[0])[:70])
+    elif elem_exprs:
+        c.ok("pairing:saved-flag-source", loc(bw, inv), "each saved flag is the value stop_tracking returned for its operand", nontrivial=False)
     tup = strip(inv["args"][1]) if len(inv["args"]) > 1 else None
     second = tup["fields"][1] if tup and tup.get("k") == "Tuple" and len(tup["fields"]) == 3 else None
     c.check(second is not None and var_of(second) == saved, "pairing:flags-argument", loc(bw, inv),
@@ -2109,6 +2153,11 @@ def r24_count_protocol(facts):
                 is_rec = n2.get("k") == "Call" and resolved(n2) == pc["def"] and var_of(n2["args"][0]) == owner
                 is_push = n2.get("k") == "Call" and callee(n2) in ("alloc::vec::Vec::<T, A>::push", "alloc::collections::vec_deque::VecDeque::<T, A>::push_back") \
                     and any(x.get("k") in ("VarRef", "UpvarRef") and x["v"] == owner for x in walk(n2["args"][1]))
+                # a work-list that receives the child's own operands: `pending.extend(child.children.iter())`
+                is_push = is_push or (n2.get("k") == "Call" and callee(n2) in ("core::iter::traits::collect::Extend::extend", "alloc::vec::Vec::<T, A>::extend_from_slice",
+                                                                                "alloc::vec::Vec::<T, A>::append", "alloc::collections::vec_deque::VecDeque::<T, A>::extend")
+                                      and len(n2["args"]) == 2
+                                      and any(x.get("k") == "Field" and x.get("adt") == ARRAY and x.get("name") == "children" and var_of(peel(x["e"])) == owner for x in walk(n2["args"][1])))
                 if is_rec or is_push:
                     rec_ok = guarded_by_count(ctx2, n2, 0)
                     c.check(rec_ok, "count:descend-once", loc(b, n2),
